@@ -3370,6 +3370,15 @@ func ruleDoneAndErrSameContext(c *Ctx, rule string) {
 		if hasD && hasE {
 			c.check(d == e, rule, "template:done-and-err-of-one-context", "-", "a cancellable wait watches and reports the same context (receiver of .Done() == receiver of .Err())", fmt.Sprintf("%s: Done on %s, Err on %s", fn, d, e))
 		}
+		// and that context is the one identifier the errgroup declaration binds (`eg, ctx := errgroup.WithContext(..)`): a
+		// constant name, not a name computed per statement (a provider's own context argument is the caller's context,
+		// which the group never cancels)
+		for _, sel := range []string{"Done", "Err"} {
+			if x, has := m[sel]; has {
+				c.check(strings.HasPrefix(x, "const:"), rule, "template:wait-watches-the-group-context:"+sel, "-",
+					"the context a wait watches is the constant identifier bound by the errgroup declaration", fmt.Sprintf("%s: %s on %s", fn, sel, x))
+			}
+		}
 	}
 	c.floor(rule, "Done/Err selector templates", n, 2)
 }
@@ -5968,4 +5977,66 @@ func rulePreviousOutputsOfEveryFile(c *Ctx, rule string) {
 		}
 	}
 	c.floor(rule, "insertions into the previous-output set", n, 1)
+}
+
+// rulePatternImportWalkComplete (C14): the import collector visits every part of a pattern that can mention a package.
+// For each pattern kind it handles (a case of the type switch in CollectPatternImports), every field of that kind whose
+// type is an expression, a list of expressions, a pattern or a list of patterns is read in the collector (a field that
+// is not read is a sub-tree whose packages are neither imported nor re-aliased: the output does not compile).
+func rulePatternImportWalkComplete(c *Ctx, rule string) {
+	L := c.L
+	fn := resolveRole(c, migPkg, "(*TypeConverter).CollectPatternImports")
+	if fn == nil {
+		c.undecided(rule, "CollectPatternImports", "function not found")
+		return
+	}
+	read := map[string]bool{}
+	for _, f := range family(L, fn) {
+		for _, b := range f.Blocks {
+			for _, in := range b.Instrs {
+				if fa, ok := in.(*ssa.FieldAddr); ok {
+					read[fieldKey(fa)] = true
+				}
+				if fv, ok := in.(*ssa.Field); ok {
+					if st, isS := fv.X.Type().Underlying().(*types.Struct); isS {
+						if n, isN := fv.X.Type().(*types.Named); isN && n.Obj().Pkg() != nil {
+							read[strings.TrimPrefix(n.Obj().Pkg().Path()+"."+n.Obj().Name(), modPath+"/")+"."+st.Field(fv.Field).Name()] = true
+						}
+					}
+				}
+			}
+		}
+	}
+	n := 0
+	for _, b := range fn.Blocks {
+		for _, in := range b.Instrs {
+			ta, ok := in.(*ssa.TypeAssert)
+			if !ok {
+				continue
+			}
+			pt, isP := ta.AssertedType.(*types.Pointer)
+			if !isP {
+				continue
+			}
+			named, isN := pt.Elem().(*types.Named)
+			if !isN || named.Obj().Pkg() == nil || named.Obj().Pkg().Path() != migPkg || !strings.HasPrefix(named.Obj().Name(), "Kessoku") {
+				continue
+			}
+			st, isS := named.Underlying().(*types.Struct)
+			if !isS {
+				continue
+			}
+			for i := 0; i < st.NumFields(); i++ {
+				ft := st.Field(i).Type().String()
+				if ft != "go/ast.Expr" && ft != "[]go/ast.Expr" && !strings.HasSuffix(ft, migPkg+".KessokuPattern") {
+					continue
+				}
+				n++
+				key := "internal/migrate." + named.Obj().Name() + "." + st.Field(i).Name()
+				c.check(read[key], rule, fnName(fn)+":visits:"+named.Obj().Name()+"."+st.Field(i).Name(), L.pos(ta.Pos()),
+					"the import collector descends into every expression and sub-pattern of a "+named.Obj().Name(), "field "+st.Field(i).Name()+" ("+ft+") is not read by the collector")
+			}
+		}
+	}
+	c.floor(rule, "expression / sub-pattern fields of the pattern kinds the collector handles", n, 5)
 }
